@@ -12,10 +12,10 @@ M64 = (1 << 64) - 1
 OPN = ["readFF", "readFF_nb", "readFE", "readFE_nb", "writeF", "writeEF", "writeEF_nb", "fill", "empty", "incrF", "status"]
 READFF, READFF_NB, READFE, READFE_NB, WRITEF, WRITEEF, WRITEEF_NB, FILL, EMPTY, INCRF, STATUS = range(11)
 NEVER_BLOCKS = [READFF_NB, READFE_NB, WRITEF, WRITEEF_NB, FILL, EMPTY, INCRF, STATUS]
-# calls a non-qthread pthread may make in the scripts: those proxied by qthread_syncvar_blocker_func (which waits for its
-# task).  fill/empty/writeF (nonblocker proxy returns early, docs/proposed_fixes/C03-nonblocker-stack.diff) and incrF (result
-# truncated to int, C03-external-incrF-truncated.diff) are left out.
-EXTERNAL_OK = [READFF, READFF_NB, READFE, READFE_NB, WRITEEF, WRITEEF_NB, STATUS]
+# calls a non-qthread pthread may make in the scripts: every operation (the library proxies them through a forked task and
+# waits for it: qthread_syncvar_blocker_func, and since /repo a562144 also qthread_syncvar_nonblocker_func; the 64-bit incrF
+# result comes back through the argument slot since b527f88), as long as the call does not have to wait.
+EXTERNAL_OK = list(range(11))
 VALUES = [0, 1, 2, 5, 1 << 59, (1 << 60) - 2, (1 << 60) - 1, 1 << 60, (1 << 60) + 1, 1 << 63, (1 << 64) - 1]
 CORPUS = os.path.join(core.VERIF, "corpus", "C03")
 LEVEL = "proof"
@@ -431,7 +431,7 @@ def oracle_script(script, impl_lines, status):
             why = spec.check_vars(obs, "after initialisation")
         elif p[0] == "O":
             why = spec.check_step(int(p[1]), int(p[2]), int(p[3]), int(p[4], 16), int(p[5]), obs)
-        elif p[0] in "MX":
+        elif p[0] in "MXY":
             why = spec.check_step(spec.nt, int(p[1]), int(p[2]), int(p[3], 16), int(p[4]), obs)
         elif p[0] == "D":
             why = spec.check_drain(obs)
@@ -448,7 +448,7 @@ def describe(cmd):
     p = cmd.split()
     if p[0] == "O":
         return "task %s: %s(V%s, 0x%s%s)" % (p[1], OPN[int(p[3])], p[2], p[4], "" if p[5] == "1" else ", dest=NULL")
-    if p[0] in "MX":
+    if p[0] in "MXY":
         return "%s: %s(V%s, 0x%s)" % ("controller" if p[0] == "M" else "external pthread", OPN[int(p[2])], p[1], p[3])
     return cmd
 
@@ -475,7 +475,7 @@ def load_corpus():
 def shrink(exe, drv, cfg, script, pred):
     """delta-debug the O/M lines of a script; pred(script, impl_lines, status, model_lines) -> bool (still failing)"""
     head = [c for c in script if c[0] in "NI"]
-    ops = [c for c in script if c[0] in "OMX"]
+    ops = [c for c in script if c[0] in "OMXY"]
 
     def fails(sub):
         s = head + sub + ["D"]
@@ -533,9 +533,9 @@ def run(ctx):
             rel = 0
             for cmd, l in zip(s, il):
                 p = cmd.split()
-                if p[0] in "OMX":
+                if p[0] in "OMXY":
                     ophist[OPN[int(p[3] if p[0] == "O" else p[2])]] += 1
-                    if p[0] == "X":
+                    if p[0] in "XY":
                         outcome["external_calls"] += 1
                     o = parse_line(l)
                     if o["kind"] == "BUSY":
@@ -574,9 +574,8 @@ def run(ctx):
     ctx.assumptions += [
         "operation-atomic granularity: each API call holds the word lock from qthread_mwaitc to its publishing store; interleavings inside a call "
         "(CAS spin, timeout, the `it got full!` re-check branches) are modelled, not exercised",
-        "external (non-qthread pthread) callers are exercised for the calls proxied by qthread_syncvar_blocker_func (readFF/readFE/writeEF and _nb, "
-        "when enabled) and status; fill/empty/writeF/incrF from a non-qthread pthread are left out: confirmed defects "
-        "docs/proposed_fixes/C03-nonblocker-stack.diff and C03-external-incrF-truncated.diff (reproducer harness/c/c03_ext_nonblocker.c)"]
+        "external (non-qthread pthread) callers are exercised for every operation, but only for calls that do not have to wait "
+        "(a blocked external caller has no task id to appear under in the waiter lists)"]
 
     ctx.notes.append("history: incrF used to return / deliver the unreduced 64-bit sum once it reached 2^60 (found by this check, "
                      "fixed in /repo 70f90aa); regression: corpus/C03/05_incrF_wrap.txt, Syncvar/Examples.v incrF_wrap_regression")
